@@ -282,3 +282,171 @@ func runControlWriteSerial(c *Ctx) {
 				"so the bytes of two records mix on the control stream and the peer decodes garbage lengths - both sides lose the framing and time out")
 	}
 }
+
+func init() {
+	Register(&Rule{
+		Name:  "R-TICKER-STOP",
+		Props: []string{"C12", "C03"},
+		Min:   1,
+		Doc: "the function that stops the progress ticker ends the ticker's goroutine itself (F66): in startProgressTicker the goroutine's select has a case on a channel that the returned stop function closes (or sends on) before it waits for the goroutine - " +
+			"a stop function that only waits for the context to end blocks its callers, which run it (deferred) before they cancel that context: the transfer function never returns after a success, its slot stays taken until the receiver leaves, and the receiver is then recorded as failed",
+		Run: runTickerStop,
+	})
+	Register(&Rule{
+		Name:  "R-FINISHED-WHILE-LEAVING",
+		Props: []string{"C12", "C03"},
+		Min:   2,
+		Doc: "a transfer that completed is recorded as done also when its receiver was seen leaving a moment before it returned (F66; the receiver exits when it is finished): handlePeerLeft marks the slot it releases (`slot.left = true`, before the slot is deleted), " +
+			"and runTransfer writes the final status when it owns the slot or when that mark is set and no slot is held for the peer",
+		Run: runFinishedWhileLeaving,
+	})
+}
+
+func runTickerStop(c *Ctx) {
+	p := c.P
+	f := p.Func("app.startProgressTicker")
+	if f == nil {
+		c.MissingAnchor("app.startProgressTicker")
+		return
+	}
+	info := f.Info()
+	// the goroutine literal and the returned literal
+	var goLit, retLit *FuncInfo
+	InspectNoLits(f.Body, func(m ast.Node) bool {
+		switch s := m.(type) {
+		case *ast.GoStmt:
+			if lit, ok := ast.Unparen(s.Call.Fun).(*ast.FuncLit); ok {
+				goLit = p.LitInfo(lit)
+			}
+		case *ast.ReturnStmt:
+			for _, r := range s.Results {
+				if lit, ok := ast.Unparen(r).(*ast.FuncLit); ok {
+					if li := p.LitInfo(lit); li != nil && li.Body != nil && len(li.Body.List) > 0 {
+						retLit = li
+					}
+				}
+			}
+		}
+		return true
+	})
+	if goLit == nil || retLit == nil {
+		c.Unknown("ticker-stop/anchors", f.Pos(), "cannot find the ticker goroutine / the returned stop function")
+		return
+	}
+	// channels the goroutine selects on (receives from), other than ctx.Done() and the ticker
+	recvs := map[types.Object]bool{}
+	ast.Inspect(goLit.Body, func(m ast.Node) bool {
+		if cc, ok := m.(*ast.CommClause); ok && cc.Comm != nil {
+			if es, ok := cc.Comm.(*ast.ExprStmt); ok {
+				if u, ok := ast.Unparen(es.X).(*ast.UnaryExpr); ok && u.Op == token.ARROW {
+					if o := ObjOf(info, u.X); o != nil {
+						recvs[o] = true
+					}
+				}
+			}
+		}
+		return true
+	})
+	signals := false
+	ast.Inspect(retLit.Body, func(m ast.Node) bool {
+		switch x := m.(type) {
+		case *ast.CallExpr:
+			if id, ok := ast.Unparen(x.Fun).(*ast.Ident); ok && id.Name == "close" && len(x.Args) == 1 && recvs[ObjOf(info, x.Args[0])] {
+				signals = true
+			}
+			// a cancel function of a context the goroutine listens to
+		case *ast.SendStmt:
+			if recvs[ObjOf(info, x.Chan)] {
+				signals = true
+			}
+		}
+		return true
+	})
+	c.Check(signals, "ticker-stop/signals", retLit.Pos(), "the stop function signals the goroutine on a channel of its own",
+		"the stop function returned by startProgressTicker only waits for the ticker's goroutine, which ends with the context alone: the callers run it (deferred) before they cancel that context, so after a successful transfer the sender's transfer function blocks here - "+
+			"the slot stays taken and the connections open until the receiver, which exits when it is finished, is seen leaving, and handlePeerLeft then records a transfer that succeeded on both ends as failed")
+}
+
+func runFinishedWhileLeaving(c *Ctx) {
+	p := c.P
+	hl := p.Func("app.(*SnapshotSender).handlePeerLeft")
+	rt := p.Func("app.(*SnapshotSender).runTransfer")
+	if hl == nil || rt == nil {
+		c.MissingAnchor("app.(*SnapshotSender).handlePeerLeft / runTransfer")
+		return
+	}
+	// (i) handlePeerLeft: <slot>.left = true dominates delete(s.active, ..)
+	{
+		info := hl.Info()
+		cfg := hl.CFG()
+		var mark, del NodeRef
+		cfg.EachNode(func(r NodeRef) {
+			switch s := r.Node().(type) {
+			case *ast.AssignStmt:
+				if len(s.Lhs) == 1 && len(s.Rhs) == 1 {
+					if sel, ok := ast.Unparen(s.Lhs[0]).(*ast.SelectorExpr); ok && sel.Sel.Name == "left" && types.ExprString(s.Rhs[0]) == "true" {
+						if t := info.TypeOf(sel.X); t != nil && strings.Contains(t.String(), "transferSlot") {
+							mark = r
+						}
+					}
+				}
+			case *ast.ExprStmt:
+				if call, ok := s.X.(*ast.CallExpr); ok {
+					if id, ok := ast.Unparen(call.Fun).(*ast.Ident); ok && id.Name == "delete" && len(call.Args) == 2 && strings.HasSuffix(types.ExprString(call.Args[0]), ".active") {
+						del = r
+					}
+				}
+			}
+		})
+		c.Check(mark.Valid() && del.Valid() && cfg.Dominates(mark, del), "finished-while-leaving/marked", hl.Pos(), "the slot a leaving receiver held is marked before it is released",
+			"handlePeerLeft releases the slot of a leaving receiver without marking it (`slot.left = true` in front of the delete): runTransfer cannot tell a transfer that finished in the moment its receiver exited from a stale one, "+
+				"and a transfer that succeeded on both ends stays recorded as failed whenever the leave is seen first")
+	}
+	// (ii) runTransfer: the Done status is written under a condition that admits the marked-and-vacant case
+	{
+		info := rt.Info()
+		n := 0
+		InspectNoLits(rt.Body, func(m ast.Node) bool {
+			as, ok := m.(*ast.AssignStmt)
+			if !ok || len(as.Lhs) != 1 || len(as.Rhs) != 1 {
+				return true
+			}
+			sel, ok := ast.Unparen(as.Lhs[0]).(*ast.SelectorExpr)
+			if !ok || sel.Sel.Name != "Status" || !strings.HasSuffix(types.ExprString(as.Rhs[0]), "StatusDone") {
+				return true
+			}
+			n++
+			admits := false
+			for _, is := range enclosingIfs(rt.Body, as) {
+				ast.Inspect(is.Cond, func(x ast.Node) bool {
+					e, ok := x.(ast.Expr)
+					if !ok {
+						return true
+					}
+					// an operand of a disjunction that is (a variable defined as) a conjunction with `<slot>.left`
+					if be, ok := ast.Unparen(e).(*ast.BinaryExpr); ok && be.Op == token.LOR {
+						for _, side := range []ast.Expr{be.X, be.Y} {
+							exprs := append([]ast.Expr{side}, resolveExprsAll(rt, side)...)
+							for _, d := range exprs {
+								for _, a := range Implied(d, true) {
+									if s2, ok := ast.Unparen(a.E).(*ast.SelectorExpr); ok && s2.Sel.Name == "left" && a.Val {
+										admits = true
+									}
+								}
+							}
+						}
+					}
+					return true
+				})
+			}
+			_ = info
+			c.Check(admits, fmt.Sprintf("finished-while-leaving/done#%d", n), as.Pos(), "done is recorded by the owner of the slot or for a slot released by the receiver's leave",
+				"runTransfer records `done` only while it still owns the slot: the receiver exits the moment its transfer is finished, its leave can be handled a moment before the transfer function returns, "+
+					"and then the transfer that succeeded on both ends stays `failed` in the host's books")
+			return true
+		})
+		if n == 0 {
+			c.Bad("finished-while-leaving/done", rt.Pos(), "runTransfer never records ReceiverStatusDone")
+		}
+	}
+}
